@@ -27,6 +27,9 @@ CHECKS = {
  "C20": ("exploration", "A", "deterministic simulation: a second real process holding fcntl locks (and F_SETLK failing at the seam) for every single/pair choice of droppable members",
          "Exhaustive over 'which droppable member(s) are locked' (singles and pairs) per scenario world x 5 operations x {default, --no-lock} x {real holder, EAGAIN, EACCES at the seam}; thorough adds seeded worlds. Oracle: locked paths untouched and reported, others processed as in the lock-free run, counts.",
          "serial mode; the lock-free twin run defines the droppable set; fcntl locks are per inode (hard links of a locked file count as locked)", "4/C20"),
+ "C06": ("exploration", "A", "deterministic simulation: real binary vs executable replica-counting model, plus metamorphic root-respelling runs",
+         "Seeded link structures x flag combinations x root spellings; report must equal the documented replica model and be identical under respelling of the roots.",
+         "reference model written from the documentation; plain names only", "4/C06"),
 }
 NOT_APPLICABLE = {
  "C16": "pure function of (glob pattern, string): no schedule, clock, fault, stream or history for a simulator to control; needs bounded-exhaustive input enumeration against a reference matcher, which is a different technique (DESIGN section 5)",
